@@ -1,9 +1,9 @@
 SPECIFICATION FairSpec
 CONSTANTS
-  T = {t1, t2}
-  Extra = {x1}
-  Kinds = {"ok", "fail"}
+  T = {t1}
+  Extra = {}
+  Kinds = {"ok"}
   CheckWaitpid = TRUE
   ExecLocked = TRUE
-  MaskCritical = TRUE
+  MaskCritical = FALSE
 PROPERTY Terminates
